@@ -45,11 +45,31 @@ impl<const N: usize> From<PodUN<N>> for usize {
     }
 }
 
+/// a user-defined prefix whose byte encoding is big-endian (what a prefix means is its `Into<usize>`,
+/// not its bytes): only used in the C10 sweep, the Coq model reads prefixes little-endian
+#[derive(Clone, Copy)]
+#[repr(transparent)]
+pub struct PodBE32(pub [u8; 4]);
+unsafe impl Zeroable for PodBE32 {}
+unsafe impl Pod for PodBE32 {}
+impl TryFrom<usize> for PodBE32 {
+    type Error = core::num::TryFromIntError;
+    fn try_from(v: usize) -> Result<Self, Self::Error> {
+        Ok(PodBE32(u32::try_from(v)?.to_be_bytes()))
+    }
+}
+impl From<PodBE32> for usize {
+    fn from(p: PodBE32) -> usize {
+        u32::from_be_bytes(p.0) as usize
+    }
+}
+
 pub const NELEM: usize = 10;
 pub const NPREF: usize = 7;
+pub const NPREF_ALL: usize = 8;
 pub const ELEM_NAMES: [&str; NELEM] = ["[u8;1]", "[u8;3]", "E35", "u16", "u32", "u64", "u128", "A8x16", "()", "[u64;0]"];
-pub const PREF_NAMES: [&str; NPREF] = ["PodU16", "PodU32", "PodU64", "PodU128", "u8", "custom 24-bit", "custom 48-bit"];
-pub const PREF_SIZE: [usize; NPREF] = [2, 4, 8, 16, 1, 3, 6];
+pub const PREF_NAMES: [&str; NPREF_ALL] = ["PodU16", "PodU32", "PodU64", "PodU128", "u8", "custom 24-bit", "custom 48-bit", "custom big-endian 32-bit"];
+pub const PREF_SIZE: [usize; NPREF_ALL] = [2, 4, 8, 16, 1, 3, 6, 4];
 
 /// Trait object-free dispatch: call the generic function `$f::<T, L>($args)`.
 macro_rules! dispatch {
@@ -61,7 +81,8 @@ macro_rules! dispatch {
             3 => dispatch!(@e $ei, PodU128, $f ( $($a),* )),
             4 => dispatch!(@e $ei, u8, $f ( $($a),* )),
             5 => dispatch!(@e $ei, PodUN<3>, $f ( $($a),* )),
-            _ => dispatch!(@e $ei, PodUN<6>, $f ( $($a),* )),
+            6 => dispatch!(@e $ei, PodUN<6>, $f ( $($a),* )),
+            _ => dispatch!(@e $ei, PodBE32, $f ( $($a),* )),
         }
     };
     (@e $ei:expr, $L:ty, $f:ident ( $($a:expr),* )) => {
@@ -146,6 +167,53 @@ fn g_sort<T: Pod, L: PL>(buf: &mut [u8]) -> Res<Vec<u8>> {
         v.sort_by(|a, b| bytemuck::bytes_of(a).cmp(bytemuck::bytes_of(b)));
         Ok(vec![])
     })
+}
+/// sort by a key on which many elements tie (first byte mod 4): the slice methods reached through
+/// DerefMut are std's, so `sort_by` is stable; returns the visible bytes afterwards
+fn g_sort_by_key<T: Pod, L: PL>(buf: &mut [u8]) -> Res<Vec<u8>> {
+    catch(|| -> Result<Vec<u8>, ProgramError> {
+        let mut v = ListView::<T, L>::unpack_mut(buf)?;
+        v.sort_by(|a, b| (bytemuck::bytes_of(a)[0] % 4).cmp(&(bytemuck::bytes_of(b)[0] % 4)));
+        let mut out = Vec::new();
+        for x in v.iter() {
+            out.extend_from_slice(bytemuck::bytes_of(x));
+        }
+        Ok(out)
+    })
+}
+/// more than 20 elements with ties under the sort key: the visible slice must be what a Vec gives
+/// (stable), also after re-opening read-only
+fn stable_sort_scenarios(rep: &mut Report, rng: &mut Rng, count: usize) {
+    for k in 0..count {
+        let ei = [0usize, 1, 2][k % 3];
+        let li = rng.below(NPREF as u64) as usize;
+        let (szt, _) = dims(ei);
+        let cap = rng.range(21, 60) as usize;
+        let n = hdr(ei, li) + cap * szt;
+        let mut big = vec![0u64; 600]; // 8-aligned backing
+        let bytes: &mut [u8] = bytemuck::cast_slice_mut(&mut big);
+        let buf = &mut bytes[..n];
+        if dispatch!(ei, li, g_init(buf)) != Res::Ok((0, cap)) {
+            continue;
+        }
+        let len = rng.range(21, cap as u64) as usize;
+        let mut model: Vec<Vec<u8>> = Vec::new();
+        for _ in 0..len {
+            let item = rng.bytes(szt);
+            let _ = dispatch!(ei, li, g_push(buf, &item));
+            model.push(item);
+        }
+        let got = dispatch!(ei, li, g_sort_by_key(buf));
+        model.sort_by(|a, b| (a[0] % 4).cmp(&(b[0] % 4)));
+        let want: Vec<u8> = model.concat();
+        let reopened = dispatch!(ei, li, g_visible(buf, false)).map(|(_, b, _)| b);
+        rep.count("sort:stable-with-ties");
+        rep.monitor_runs += 1;
+        if got != Res::Ok(want.clone()) || reopened != Res::Ok(want.clone()) {
+            rep.violate("sort-with-ties", "after sort_by with a key on which elements tie, the visible slice is not what a vector holds (std's sort_by is stable)",
+                serde_json::json!({"elem": ELEM_NAMES[ei], "prefix": PREF_NAMES[li], "elements": len, "observed": format!("{:?}", got.map(|b| emit::hex(&b))), "expected": emit::hex(&want)}).to_string());
+        }
+    }
 }
 /// (count, concatenated bytes, offset of the slice inside buf or usize::MAX when empty)
 fn g_visible<T: Pod, L: PL>(buf: &mut [u8], mutable: bool) -> Res<(usize, Vec<u8>, usize)> {
@@ -494,6 +562,7 @@ pub fn run_c09(ctx: &Ctx) -> Report {
     let mut rng = Rng::new(ctx.seed.wrapping_mul(131).wrapping_add(9));
     boundary_u16(&mut rep, "C09");
     boundary_capacity(&mut rep);
+    stable_sort_scenarios(&mut rep, &mut rng, ctx.scale(150, 1500));
     // size_of: exactness and overflow
     for ei in 0..NELEM {
         for li in 0..NPREF {
@@ -574,7 +643,7 @@ pub fn run_c10(ctx: &Ctx) -> Report {
     boundary_capacity(&mut rep);
     let stride = ctx.scale(97, 11);
     for ei in 0..NELEM {
-        for li in 0..NPREF {
+        for li in 0..NPREF_ALL {
             let (szt, alt) = dims(ei);
             let h = hdr(ei, li);
             let maxlen = h + 3 * szt + 2;
@@ -589,7 +658,11 @@ pub fn run_c10(ctx: &Ctx) -> Report {
                         }
                         let w = PREF_SIZE[li];
                         if n >= w {
-                            arena.0[off..off + w].copy_from_slice(&stored.to_le_bytes()[..w]);
+                            if li == 7 {
+                                arena.0[off..off + w].copy_from_slice(&(stored as u32).to_be_bytes());
+                            } else {
+                                arena.0[off..off + w].copy_from_slice(&stored.to_le_bytes()[..w]);
+                            }
                         }
                         let bytes = arena.0[off..off + n].to_vec();
                         let ro = dispatch!(ei, li, g_open_ro(&mut arena.0[off..off + n]));
@@ -645,7 +718,7 @@ pub fn run_c10(ctx: &Ctx) -> Report {
                                 rep.violate("ro-mut-elements-differ", "read-only and mutable views expose different elements (or one of them outside the buffer)", detail());
                             }
                         }
-                        if count % stride == 0 {
+                        if count % stride == 0 && li != 7 {
                             let init_r = {
                                 let mut copy = Arena([0u8; 1024]);
                                 copy.0[off..off + n].copy_from_slice(&bytes);
